@@ -135,6 +135,8 @@ Definition any_frozen (s : st) : bool := existsb (fun x => frozen x && live x) (
 Definition release_chan (x : kst) : kst :=
   if live x then w_chan 0 (release_n (chan x) x) else x.
 
+Definition blocked (s : st) : bool := any_needs_free s && negb (gone s).
+
 Definition strict_ev (e : ev) : bool :=
   match e with
   | EKeyFree _ | EBlockingStart _ | EBlockingEnd _ | EOther => false
@@ -145,7 +147,9 @@ Definition step (s0 : st) (e : ev) : option st :=
   let s := if user_ev e then settle_all s0 else s0 in
   (* every predicted free must have been observed before anything else happens
      on the driver thread (pool-thread events may interleave) *)
-  if strict_ev e && any_needs_free s then None else
+  (* once the driver is gone, the last ref of a thread-pool job is dropped by its
+     pool thread some time after BLOCKING_END: the free may be observed late *)
+  if strict_ev e && blocked s then None else
   match e with
   | EKeyNew k =>
     if Nat.eqb k (length (keys s)) then Some (set_keys s (keys s ++ [new_key])) else None
